@@ -83,3 +83,11 @@ Proof.
   intros refresh t sample age now H1 H2 H3 H4. apply C10_never_early; [lia|lia|right; lia].
 Qed.
 Print Assumptions C10_stale_sample_bound.
+
+(* the udp socket workers refresh their clock (connection-id clock and peer deadline sample) every
+   256th poll iteration (mio: at most 256 x poll_timeout_ms = 12.8 s when idle with the default
+   50 ms) or on a 5-second pulse (io_uring); regenerated from the sources *)
+Theorem C10_udp_clock_refresh_cadence :
+  (0 < udp_mio_clock_refresh_polls <= 256)%N /\ (0 < udp_uring_clock_pulse_secs <= 5)%N.
+Proof. vm_compute. repeat split; congruence. Qed.
+Print Assumptions C10_udp_clock_refresh_cadence.
